@@ -51,7 +51,7 @@ def main():
         # every run gets its OWN copy of the Coq tree (.vo included, so only what depends on regenerated files is
         # rebuilt) and of the oracles: regenerated coq/gen files never leak into /verif or into concurrent runs
         iso = Path(f"/tmp/seedtest_iso_{os.getpid()}")
-        sh(f"rm -rf {iso}; mkdir -p {iso}/build && cp -r {ROOT}/coq {iso}/coq && cp -r {ROOT}/build/oracle {iso}/build/oracle 2>/dev/null; true")
+        sh(f"rm -rf {iso}; mkdir -p {iso}/build && cp -a {ROOT}/coq {iso}/coq && cp -a {ROOT}/build/oracle {iso}/build/oracle 2>/dev/null; true")
         for p in props:
             t0 = time.time()
             e2 = dict(os.environ, VERIF_REPO=str(wt), VERIF_EVIDENCE_DIR=f"/tmp/seedtest_ev_{os.getpid()}",
